@@ -12,12 +12,24 @@
 (* The environment chooses: how far each Read gets (any non-empty prefix   *)
 (* of what remains), in which order the chunk parsers finish, and whether  *)
 (* the reader fails at byte offset ErrAt (N+1 = never).                    *)
+(*                                                                         *)
+(* Malformed lines (beyond C09, which speaks of well-formed streams):      *)
+(* IsBad[i] marks a line whose document does not parse.  The chunk that    *)
+(* holds it yields an error item instead of a value.  The forwarder sends  *)
+(* the FIRST error it meets like any item; after that it only offers what  *)
+(* follows without waiting (an item the consumer is not ready for is       *)
+(* dropped), and closes the channel when the queue is drained.  So values  *)
+(* and further errors MAY still arrive after the first error - the model   *)
+(* says so, and says what is certain: everything before the first error is *)
+(* a prefix of the stream's documents, the first error is never lost, what *)
+(* comes later keeps its order, and the channel is closed.                 *)
 (***************************************************************************)
-EXTENDS Integers, Sequences, FiniteSets, SequencesExt
+EXTENDS Integers, Sequences, FiniteSets, SequencesExt, FiniteSetsExt
 
 CONSTANTS N,        \* stream length in bytes
           Ends,     \* sequence of offsets just after each LF, strictly increasing, <= N
           IsDoc,    \* sequence of BOOLEAN, one per line (Len = number of lines incl. an unterminated last one)
+          IsBad,    \* sequence of BOOLEAN, one per line: the line's document is malformed (only where IsDoc)
           ErrAts,   \* the offsets at which the reader may fail (bytes < errAt are readable; N + 1: never)
           QCap      \* capacity of the queue of result channels
 
@@ -37,11 +49,13 @@ VARIABLES errAt,      \* chosen initially from ErrAts
           parsed,     \* set of chunk numbers whose parser has finished
           queue,      \* ordered queue: chunk numbers, then "EOF" or "ERR"
           hist,       \* history of the environment's choices: <<"read", f>>, <<"fin", k>> (replayed into the real code)
-          delivered,  \* what the consumer has received, in order: <<"val", docs>> | <<"EOF">> | <<"ERR">>
+          delivered,  \* what the consumer has received, in order: <<"val", docs>> | <<"EOF">> | <<"ERR">> | <<"PERR">>
+          offered,    \* every item the forwarder took off the queue, in order (delivered or dropped)
+          ended,      \* the forwarder has met an error item
           closed
-vars == <<errAt, pos, rpc, chunks, parsed, queue, hist, delivered, closed>>
+vars == <<errAt, pos, rpc, chunks, parsed, queue, hist, delivered, offered, ended, closed>>
 
-Init == errAt \in ErrAts /\ hist = <<>> /\ pos = 0 /\ rpc = "read" /\ chunks = <<>> /\ parsed = {} /\ queue = <<>> /\ delivered = <<>> /\ closed = FALSE
+Init == errAt \in ErrAts /\ hist = <<>> /\ pos = 0 /\ rpc = "read" /\ chunks = <<>> /\ parsed = {} /\ queue = <<>> /\ delivered = <<>> /\ offered = <<>> /\ ended = FALSE /\ closed = FALSE
 
 \* the chunk that a Read reaching offset f (pos < f <= N) produces: up to and including the next LF after f
 ChunkEnd(f) == LET later == {Ends[j] : j \in 1..Len(Ends)} \cap ((f + 1)..N)
@@ -61,39 +75,47 @@ ReadChunk(f) ==
          ok == IF LaterLF(f) # {} THEN hi <= errAt ELSE errAt > N
      IN IF ~ok
         THEN /\ queue' = Append(queue, QERR) /\ rpc' = "done"
-             /\ UNCHANGED <<pos, chunks, parsed, delivered, closed>>
+             /\ UNCHANGED <<pos, chunks, parsed, delivered, offered, ended, closed>>
         ELSE /\ pos' = hi
              /\ IF HasDoc(pos, hi)
                 THEN chunks' = Append(chunks, <<pos, hi>>) /\ queue' = Append(queue, Len(chunks) + 1)
                 ELSE UNCHANGED <<chunks, queue>>            \* a white-space-only chunk carries nothing
-             /\ UNCHANGED <<rpc, parsed, delivered, closed>>
+             /\ UNCHANGED <<rpc, parsed, delivered, offered, ended, closed>>
   /\ UNCHANGED errAt /\ hist' = Append(hist, <<"read", f>>)
 
 ReadEnd ==      \* end of input, or the reader's error, with nothing pending
   /\ rpc = "read" /\ (pos = N \/ pos = errAt) /\ Len(queue) < QCap
   /\ queue' = Append(queue, IF errAt <= N THEN QERR ELSE QEOF) /\ rpc' = "done"
-  /\ UNCHANGED <<errAt, pos, chunks, parsed, hist, delivered, closed>>
+  /\ UNCHANGED <<errAt, pos, chunks, parsed, hist, delivered, offered, ended, closed>>
 
 FinishParse(k) ==
   /\ k \in 1..Len(chunks) /\ k \notin parsed
   /\ parsed' = parsed \cup {k}
   /\ hist' = Append(hist, <<"fin", k>>)
-  /\ UNCHANGED <<errAt, pos, rpc, chunks, queue, delivered, closed>>
+  /\ UNCHANGED <<errAt, pos, rpc, chunks, queue, delivered, offered, ended, closed>>
 
-(* the forwarder takes the head of the queue once its result is available; the consumer receives it *)
+BadChunk(k) == \E i \in 1..NLines : IsBad[i] /\ LineStart(i) >= chunks[k][1] /\ LineEnd(i) <= chunks[k][2]
+ItemOf(h) == IF h = QEOF THEN <<"EOF">> ELSE IF h = QERR THEN <<"ERR">>
+             ELSE IF BadChunk(h) THEN <<"PERR">> ELSE <<"val", DocsIn(chunks[h][1], chunks[h][2])>>
+
+(* the forwarder takes the head of the queue once its result is available.  Until it has met an error the   *)
+(* consumer receives every item (blocking send); afterwards an item is delivered only if the consumer       *)
+(* happens to be ready (non-blocking send): either outcome is possible.                                     *)
 Forward ==
   /\ queue # <<>> /\ ~closed
   /\ LET h == Head(queue) IN
      /\ (h < 0 \/ h \in parsed)
-     /\ delivered' = Append(delivered, IF h = QEOF THEN <<"EOF">> ELSE IF h = QERR THEN <<"ERR">>
-                                       ELSE <<"val", DocsIn(chunks[h][1], chunks[h][2])>>)
+     /\ offered' = Append(offered, ItemOf(h))
+     /\ \/ delivered' = Append(delivered, ItemOf(h))
+        \/ ended /\ UNCHANGED delivered
+     /\ ended' = (ended \/ ItemOf(h)[1] # "val")
      /\ queue' = Tail(queue)
   /\ UNCHANGED <<errAt, pos, rpc, chunks, parsed, hist, closed>>
 
 Close ==
   /\ rpc = "done" /\ queue = <<>> /\ ~closed
   /\ closed' = TRUE
-  /\ UNCHANGED <<errAt, pos, rpc, chunks, parsed, queue, hist, delivered>>
+  /\ UNCHANGED <<errAt, pos, rpc, chunks, parsed, queue, hist, delivered, offered, ended>>
 
 Next == (\E f \in 1..N : ReadChunk(f)) \/ ReadEnd \/ (\E k \in 1..Len(chunks) : FinishParse(k)) \/ Forward \/ Close
 Spec == Init /\ [][Next]_vars /\ WF_vars(Next)
@@ -102,17 +124,36 @@ Spec == Init /\ [][Next]_vars /\ WF_vars(Next)
 Vals == SelectSeq(delivered, LAMBDA d : d[1] = "val")
 DeliveredDocs == FlattenSeq([i \in 1..Len(Vals) |-> Vals[i][2]])
 Terminals == SelectSeq(delivered, LAMBDA d : d[1] # "val")
+WellFormedStream == \A i \in 1..NLines : ~IsBad[i]
+GoodDocs == SelectSeq(AllDocs, LAMBDA i : ~IsBad[i])
 
-\* documents arrive in stream order, none lost, none repeated
-PrefixInv == IsPrefix(DeliveredDocs, AllDocs)
-\* at most one terminal error, and it is last
-TerminalLast == Len(Terminals) <= 1 /\ (Len(Terminals) = 1 => delivered[Len(delivered)][1] # "val")
+\* documents arrive in stream order, none repeated (and none lost unless the forwarder has met an error)
+PrefixInv == IF WellFormedStream THEN IsPrefix(DeliveredDocs, AllDocs)
+             ELSE \E keep \in SUBSET (1..Len(GoodDocs)) : DeliveredDocs = SelectSeq(GoodDocs, LAMBDA d : \E j \in keep : GoodDocs[j] = d)
+\* (well-formed stream) at most one terminal error, and it is last
+TerminalLast == WellFormedStream => (Len(Terminals) <= 1 /\ (Len(Terminals) = 1 => delivered[Len(delivered)][1] # "val"))
 \* a clean stream ends with every document delivered and io.EOF; a failing reader with its error
 ClosedRight ==
-  closed => /\ Len(Terminals) = 1
+  (closed /\ WellFormedStream) =>
+            /\ Len(Terminals) = 1
             /\ (errAt > N => DeliveredDocs = AllDocs /\ Terminals[1] = <<"EOF">>)
             /\ (errAt <= N => Terminals[1] = <<"ERR">>)
 \* no value without documents is delivered
 NoEmptyValue == \A i \in 1..Len(Vals) : Vals[i][2] # <<>>
+\* ---- streams with malformed lines ----
+FirstErr(sq) == IF \E i \in 1..Len(sq) : sq[i][1] # "val" THEN CHOOSE i \in 1..Len(sq) : sq[i][1] # "val" /\ \A j \in 1..(i - 1) : sq[j][1] = "val" ELSE 0
+\* up to and including the first error item the consumer sees exactly what the forwarder took off the queue: nothing is lost or
+\* reordered before an error has been reported, and the first error itself is never dropped
+UntilFirstError ==
+  LET k == FirstErr(offered) IN
+  IF k = 0 THEN delivered = offered
+  ELSE Len(delivered) >= Min({k, Len(delivered)}) /\ SubSeq(delivered, 1, Min({k, Len(delivered)})) = SubSeq(offered, 1, Min({k, Len(delivered)}))
+\* the values before the first error are the documents of the lines in front of the first malformed line's chunk, in order
+BeforeErrorIsPrefix ==
+  LET k == FirstErr(delivered)
+      vs == SelectSeq(SubSeq(delivered, 1, IF k = 0 THEN Len(delivered) ELSE k - 1), LAMBDA d : d[1] = "val")
+  IN IsPrefix(FlattenSeq([i \in 1..Len(vs) |-> vs[i][2]]), AllDocs)
+\* a closed channel has reported an error (io.EOF counts): a consumer is never left without a verdict
+ClosedHasVerdict == closed => Terminals # <<>>
 EventuallyClosed == <>closed
 =============================================================================
